@@ -1,0 +1,331 @@
+//go:build verif
+
+package process
+
+import (
+	"grits/types"
+)
+
+// Read-only views of the (unexported) AST for the verification harness.
+
+type VerifName struct {
+	Id   string       `json:"id"`
+	Self bool         `json:"self"`
+	Pol  string       `json:"pol"`  // polarity of the occurrence's type: pos | neg | nil (no type)
+	Mode string       `json:"mode"` // mode of the occurrence's type, "" when it has none
+	Xpol string       `json:"xpol"` // explicit polarity annotation: "" | pos | neg
+	Chan chan Message `json:"-"`
+}
+
+func verifPolString(p types.Polarity) string {
+	switch p {
+	case types.POSITIVE:
+		return "pos"
+	case types.NEGATIVE:
+		return "neg"
+	}
+	return "unk"
+}
+
+func VerifNameOf(n Name, env *GlobalEnvironment) VerifName {
+	v := VerifName{Id: n.Ident, Self: n.IsSelf, Pol: "nil", Chan: n.Channel}
+	if n.ExplicitPolarity != nil {
+		v.Xpol = verifPolString(*n.ExplicitPolarity)
+	}
+	if n.Type != nil {
+		v.Mode = n.Type.Modality().String()
+		t := n.Type
+		if env != nil && env.Types != nil {
+			t = types.UnfoldIfNeeded(t, env.Types)
+		}
+		if t == nil {
+			v.Pol = "undef"
+		} else if _, isLabel := t.(*types.LabelType); isLabel {
+			v.Pol = "label"
+		} else {
+			v.Pol = verifPolString(t.Polarity())
+		}
+	}
+	return v
+}
+
+// VerifType renders a session type as nested maps (modes included).
+func VerifType(t types.SessionType) interface{} {
+	if t == nil {
+		return map[string]interface{}{"k": "none"}
+	}
+	opts := func(bs []types.Option) []interface{} {
+		r := []interface{}{}
+		for _, b := range bs {
+			r = append(r, map[string]interface{}{"label": b.Label, "t": VerifType(b.SessionType)})
+		}
+		return r
+	}
+	switch q := t.(type) {
+	case *types.LabelType:
+		return map[string]interface{}{"k": "name", "name": q.Label, "mode": q.Mode.String()}
+	case *types.UnitType:
+		return map[string]interface{}{"k": "unit", "mode": q.Mode.String()}
+	case *types.SendType:
+		return map[string]interface{}{"k": "send", "l": VerifType(q.Left), "r": VerifType(q.Right), "mode": q.Mode.String()}
+	case *types.ReceiveType:
+		return map[string]interface{}{"k": "recv", "l": VerifType(q.Left), "r": VerifType(q.Right), "mode": q.Mode.String()}
+	case *types.SelectLabelType:
+		return map[string]interface{}{"k": "sel", "br": opts(q.Branches), "mode": q.Mode.String()}
+	case *types.BranchCaseType:
+		return map[string]interface{}{"k": "bra", "br": opts(q.Branches), "mode": q.Mode.String()}
+	case *types.UpType:
+		return map[string]interface{}{"k": "up", "from": q.From.String(), "to": q.To.String(), "t": VerifType(q.Continuation)}
+	case *types.DownType:
+		return map[string]interface{}{"k": "down", "from": q.From.String(), "to": q.To.String(), "t": VerifType(q.Continuation)}
+	}
+	return map[string]interface{}{"k": "unknown"}
+}
+
+type verifFlattener struct {
+	nodes []map[string]interface{}
+	env   *GlobalEnvironment
+}
+
+func (fl *verifFlattener) name(n Name) VerifName { return VerifNameOf(n, fl.env) }
+
+// add flattens a form into the node table and returns its 1-based index.
+func (fl *verifFlattener) add(f Form) int {
+	idx := len(fl.nodes)
+	fl.nodes = append(fl.nodes, nil)
+	m := map[string]interface{}{}
+	switch p := f.(type) {
+	case *SendForm:
+		m["k"] = "send"
+		m["to"] = fl.name(p.to_c)
+		m["pay"] = fl.name(p.payload_c)
+		m["cont"] = fl.name(p.continuation_c)
+	case *ReceiveForm:
+		m["k"] = "recv"
+		m["pay"] = fl.name(p.payload_c)
+		m["cont"] = fl.name(p.continuation_c)
+		m["from"] = fl.name(p.from_c)
+		m["next"] = fl.add(p.continuation_e)
+	case *SelectForm:
+		m["k"] = "sel"
+		m["to"] = fl.name(p.to_c)
+		m["label"] = p.label.L
+		m["cont"] = fl.name(p.continuation_c)
+	case *CaseForm:
+		m["k"] = "case"
+		m["from"] = fl.name(p.from_c)
+		brs := []interface{}{}
+		for _, b := range p.branches {
+			brs = append(brs, map[string]interface{}{"label": b.label.L, "pay": fl.name(b.payload_c), "next": fl.add(b.continuation_e)})
+		}
+		m["br"] = brs
+	case *NewForm:
+		m["k"] = "new"
+		m["x"] = fl.name(p.new_name_c)
+		m["xt"] = VerifType(p.new_name_c.Type)
+		m["body"] = fl.add(p.body)
+		m["next"] = fl.add(p.continuation_e)
+	case *CloseForm:
+		m["k"] = "close"
+		m["from"] = fl.name(p.from_c)
+	case *ForwardForm:
+		m["k"] = "fwd"
+		m["to"] = fl.name(p.to_c)
+		m["from"] = fl.name(p.from_c)
+		m["drop"] = p.to_drop
+	case *SplitForm:
+		m["k"] = "split"
+		m["a"] = fl.name(p.channel_one)
+		m["b"] = fl.name(p.channel_two)
+		m["from"] = fl.name(p.from_c)
+		m["next"] = fl.add(p.continuation_e)
+	case *CallForm:
+		m["k"] = "call"
+		m["fn"] = p.functionName
+		args := []interface{}{}
+		for _, a := range p.parameters {
+			args = append(args, fl.name(a))
+		}
+		m["args"] = args
+	case *WaitForm:
+		m["k"] = "wait"
+		m["to"] = fl.name(p.to_c)
+		m["next"] = fl.add(p.continuation_e)
+	case *CastForm:
+		m["k"] = "cast"
+		m["to"] = fl.name(p.to_c)
+		m["cont"] = fl.name(p.continuation_c)
+	case *ShiftForm:
+		m["k"] = "shift"
+		m["cont"] = fl.name(p.continuation_c)
+		m["from"] = fl.name(p.from_c)
+		m["next"] = fl.add(p.continuation_e)
+	case *DropForm:
+		m["k"] = "drop"
+		m["c"] = fl.name(p.client_c)
+		m["next"] = fl.add(p.continuation_e)
+	case *PrintForm:
+		m["k"] = "print"
+		m["label"] = p.label.L
+		m["next"] = fl.add(p.continuation_e)
+	default:
+		m["k"] = "unknown"
+	}
+	fl.nodes[idx] = m
+	return idx + 1
+}
+
+// VerifDumpProgram flattens a parsed (and possibly typechecked) program:
+// nodes (1-based table), funcs, procs, type definitions.
+func VerifDumpProgram(processes []*Process, env *GlobalEnvironment) map[string]interface{} {
+	fl := &verifFlattener{env: env}
+	funcs := []interface{}{}
+	if env != nil && env.FunctionDefinitions != nil {
+		for _, fd := range *env.FunctionDefinitions {
+			params := []interface{}{}
+			for _, p := range fd.Parameters {
+				params = append(params, map[string]interface{}{"id": p.Ident, "t": VerifType(p.Type)})
+			}
+			expl := ""
+			if fd.UsesExplicitProvider {
+				expl = fd.ExplicitProvider.Ident
+			}
+			funcs = append(funcs, map[string]interface{}{"name": fd.FunctionName, "params": params, "expl": expl,
+				"t": VerifType(fd.Type), "body": fl.add(fd.Body)})
+		}
+	}
+	procs := []interface{}{}
+	for _, p := range processes {
+		provs := []interface{}{}
+		for _, n := range p.Providers {
+			provs = append(provs, n.Ident)
+		}
+		procs = append(procs, map[string]interface{}{"provs": provs, "t": VerifType(p.Type), "body": fl.add(p.Body)})
+	}
+	tdefs := []interface{}{}
+	if env != nil && env.Types != nil {
+		for _, td := range *env.Types {
+			mode := ""
+			if td.Modality != nil {
+				mode = td.Modality.String()
+			}
+			tdefs = append(tdefs, map[string]interface{}{"name": td.Name, "mode": mode, "t": VerifType(td.SessionType)})
+		}
+	}
+	nodes := []interface{}{}
+	for _, n := range fl.nodes {
+		nodes = append(nodes, n)
+	}
+	return map[string]interface{}{"nodes": nodes, "funcs": funcs, "procs": procs, "types": tdefs}
+}
+
+// VerifHead describes the head form of a running process: kind plus the names it mentions.
+type VerifHead struct {
+	Kind  string
+	Label string
+	Fn    string
+	Drop  bool
+	Names map[string]VerifName
+	Args  []VerifName
+}
+
+func VerifDescribe(f Form, env *GlobalEnvironment) VerifHead {
+	fl := &verifFlattener{env: env}
+	h := VerifHead{Names: map[string]VerifName{}}
+	switch p := f.(type) {
+	case *SendForm:
+		h.Kind = "send"
+		h.Names["to"], h.Names["pay"], h.Names["cont"] = fl.name(p.to_c), fl.name(p.payload_c), fl.name(p.continuation_c)
+	case *ReceiveForm:
+		h.Kind = "recv"
+		h.Names["from"] = fl.name(p.from_c)
+	case *SelectForm:
+		h.Kind = "sel"
+		h.Label = p.label.L
+		h.Names["to"], h.Names["cont"] = fl.name(p.to_c), fl.name(p.continuation_c)
+	case *CaseForm:
+		h.Kind = "case"
+		h.Names["from"] = fl.name(p.from_c)
+	case *NewForm:
+		h.Kind = "new"
+	case *CloseForm:
+		h.Kind = "close"
+		h.Names["from"] = fl.name(p.from_c)
+	case *ForwardForm:
+		h.Kind = "fwd"
+		h.Drop = p.to_drop
+		h.Names["to"], h.Names["from"] = fl.name(p.to_c), fl.name(p.from_c)
+	case *SplitForm:
+		h.Kind = "split"
+		h.Names["from"] = fl.name(p.from_c)
+	case *CallForm:
+		h.Kind = "call"
+		h.Fn = p.functionName
+		for _, a := range p.parameters {
+			h.Args = append(h.Args, fl.name(a))
+		}
+	case *WaitForm:
+		h.Kind = "wait"
+		h.Names["to"] = fl.name(p.to_c)
+	case *CastForm:
+		h.Kind = "cast"
+		h.Names["to"], h.Names["cont"] = fl.name(p.to_c), fl.name(p.continuation_c)
+	case *ShiftForm:
+		h.Kind = "shift"
+		h.Names["from"] = fl.name(p.from_c)
+	case *DropForm:
+		h.Kind = "drop"
+		h.Names["c"] = fl.name(p.client_c)
+	case *PrintForm:
+		h.Kind = "print"
+		h.Label = p.label.L
+	default:
+		h.Kind = "unknown"
+	}
+	return h
+}
+
+// VerifFreeNames returns the free names of a form as the interpreter computes them.
+func VerifFreeNames(f Form, env *GlobalEnvironment) []VerifName {
+	var r []VerifName
+	for _, n := range f.FreeNames() {
+		r = append(r, VerifNameOf(n, env))
+	}
+	return r
+}
+
+// VerifFormNodes returns the addresses of all Form nodes reachable from f (ownership checks).
+func VerifFormNodes(f Form) []Form {
+	var r []Form
+	var walk func(Form)
+	walk = func(g Form) {
+		if g == nil {
+			return
+		}
+		r = append(r, g)
+		switch p := g.(type) {
+		case *ReceiveForm:
+			walk(p.continuation_e)
+		case *CaseForm:
+			for _, b := range p.branches {
+				r = append(r, b)
+				walk(b.continuation_e)
+			}
+		case *NewForm:
+			walk(p.body)
+			walk(p.continuation_e)
+		case *SplitForm:
+			walk(p.continuation_e)
+		case *WaitForm:
+			walk(p.continuation_e)
+		case *ShiftForm:
+			walk(p.continuation_e)
+		case *DropForm:
+			walk(p.continuation_e)
+		case *PrintForm:
+			walk(p.continuation_e)
+		}
+	}
+	walk(f)
+	return r
+}
